@@ -590,3 +590,18 @@ package core
 //@   loop 1 invariant forall n core.Nodable :: fileRefs != nil && has(fileRefs, n) && fileRefs[n] != nil ==> alloc(fileRefs[n])
 //@   loop 1 invariant forall j :: 0 <= j && j < iter && R[j] != nil && R[j].Exp != nil && fn(syntax.Type.IsFile, R[j].Type) != 0 ==> fileRefs != nil && has(fileRefs, self.top.allNodes[R[j].Exp.Id]) && has(fileRefs[self.top.allNodes[R[j].Exp.Id]], R[j].Exp.OutputId)
 //@   loop 2 invariant forall j :: 0 <= j && j < len(R) && R[j] != nil && R[j].Exp != nil && fn(syntax.Type.IsFile, R[j].Type) != 0 ==> fileRefs != nil && has(fileRefs, self.top.allNodes[R[j].Exp.Id]) && has(fileRefs[self.top.allNodes[R[j].Exp.Id]], R[j].Exp.OutputId)
+
+// The full kill of a fork's files happens only when the fork is disabled or no consumer of
+// its file outputs is left waiting (filePostNodes empty); finished consumers are the only
+// ones handed to removeFilePostNodes.
+//@ func core.Fork.vdrKill property C04
+//@   trusted
+//@   requires @nokeeper fn(core.Fork.getState, self) == "disabled" || len(self.filePostNodes) == 0
+
+//@ callers core.Fork.vdrKill property C04 : core.Fork.partialVdrKill
+
+//@ func core.Fork.partialVdrKill property C04
+//@   requires self != nil && self.node != nil && self.node.top != nil && self.node.top.rt != nil
+//@   requires @owned forall a string, b string :: a != b && has(self.fileArgs, a) && has(self.fileArgs, b) ==> self.fileArgs[a] != self.fileArgs[b]
+//@   requires @nonnil forall a string :: has(self.fileArgs, a) ==> self.fileArgs[a] != nil
+//@   loop 1 invariant forall j :: 0 <= j && j < len(doneNodes) ==> !isnil(doneNodes[j])
